@@ -16,6 +16,7 @@ index names contain no ".." segment and no NUL.  Residue: symlinks, Windows bran
 filepath.Dir (lexical: it cannot climb without a ".." segment).
 -/
 import FhVerif.Proofs.FsPath
+import FhVerif.Gen.Facts
 
 namespace Fh.Props.C23
 open Fh Fh.Model Fh.Proofs.FsPath
@@ -347,7 +348,24 @@ theorem opened_path_confined (cfg : FsCfg) (hg : GoodCfg cfg) (mc : Bool) (host 
   | true => simpa using fsNames_os cfg hos hg mc host orig on hon
   | false => simpa using fsNames_fs cfg hos hg mc host orig on hon
 
+/-! ### from the request line to the FS path: every branch of URI.parse normalises -/
+
+/-- regenerated from uri.go on every run: every assignment to `u.path` in URI.parse (no '?'/'#', query, fragment only),
+    SetPathBytes and SetPath stores the result of normalizePath — so ctx.Path() = normalizePath(pathOriginal) whatever
+    the request target looks like, which is what `handlePath` assumes. -/
+theorem uri_parse_always_normalises :
+    (∀ f ∈ Gen.assigns_URI_parse_path, f = "normalizePath") ∧ Gen.assigns_URI_parse_path ≠ [] ∧
+    Gen.assigns_URI_SetPathBytes_path = ["normalizePath"] ∧ Gen.assigns_URI_SetPath_path = ["normalizePath"] := by
+  decide
+
+/-- confinement stated from the raw request target (query and fragment cut off as URI.parse does) -/
+theorem opened_path_confined_target (cfg : FsCfg) (hg : GoodCfg cfg) (mc : Bool) (host target : Bytes) :
+    ∀ on ∈ fsNames cfg mc host (requestPath target), Confined cfg on.2 :=
+  opened_path_confined cfg hg mc host (requestPath target)
+
 /-! ### non-vacuity -/
+
+
 
 def gz : Bytes := ofString ".fasthttp.gz"
 def cfgOS (rw : Rewriter) : FsCfg :=
@@ -383,5 +401,11 @@ example : GoodCfg (cfgOS .none) :=
     have : ix = ofString "index.html" := by simpa [cfgOS] using hix
     subst this
     exact ⟨by decide +kernel, by decide +kernel⟩⟩
+
+-- a fragment (or query) does not protect dot segments from normalisation
+example : handleTarget (cfgOS .none) (ofString "h") (ofString "/../secret.txt#frag") =
+    .serve (ofString "/secret.txt") (ofString "/srv/www/secret.txt") := by decide +kernel
+example : requestPath (ofString "/a/../b#x?y/../..") = ofString "/a/../b" := by decide +kernel
+example : requestPath (ofString "/a%23/..?q#f") = ofString "/a%23/.." := by decide +kernel
 
 end Fh.Props.C23
